@@ -118,6 +118,7 @@ def renderListItem(item: ItemInfo, reader: io.Reader, writer: io.Writer) -> Opti
         writer.write(text)
         writer.write(d.termCloseTag)
     writer.write(blockattributes.injectHtmlAttributes(d.itemOpenTag))
+    blockattributes.opts = Expand()  # Block options pending before an item end with it, as before a list.
     # Process item text from first line.
     itemLines = io.Writer()
     text = match[match.re.groups]
